@@ -270,7 +270,9 @@ impl Runner {
         // forge the two branches
         self.forge.forget();
         let genesis = cons.genesis_hash();
-        let a1_spec_ids = |txs: &[TransactionView], branch: usize| -> Vec<ProposalShortId> { (0..TXS.len()).filter(|i| roles.get(i).map(|r| if branch == 0 { r.0 } else { r.1 } >= 1).unwrap_or(false)).map(|i| txs[i].proposal_short_id()).collect() };
+        let a1_spec_ids = |txs: &[TransactionView], branch: usize| -> Vec<ProposalShortId> { (0..TXS.len()).filter(|i| roles.get(i).map(|r| matches!(if branch == 0 { r.0 } else { r.1 }, 1 | 2 | 3)).unwrap_or(false)).map(|i| txs[i].proposal_short_id()).collect() };
+        // roles 3 and 4: the id is (also / only) proposed in the last block of the branch
+        let late_ids = |txs: &[TransactionView], branch: usize| -> Vec<ProposalShortId> { (0..TXS.len()).filter(|i| roles.get(i).map(|r| matches!(if branch == 0 { r.0 } else { r.1 }, 3 | 4)).unwrap_or(false)).map(|i| txs[i].proposal_short_id()).collect() };
         let commits = |txs: &[TransactionView], branch: usize| -> Vec<TransactionView> { (0..TXS.len()).filter(|i| roles.get(i).map(|r| if branch == 0 { r.0 } else { r.1 } == 2).unwrap_or(false)).map(|i| txs[i].clone()).collect() };
         // a1 proposes H's id, which depends on a1's hash: H's id is not proposable in a1 itself;
         // H is proposed in a2 (and then committed in a4 on A) - handled by building a1 first with
@@ -298,6 +300,9 @@ impl Runner {
             if n == 4 && h_role.0 == 2 {
                 spec.txs = vec![txs[4].clone()];
             }
+            if n == a_len {
+                spec.proposals.extend(late_ids(&txs, 0));
+            }
             let parent = a.last().unwrap().hash();
             let blk = self.forge.build_on(&parent, &spec)?;
             a.push(blk);
@@ -309,6 +314,9 @@ impl Runner {
             }
             if n == 3 {
                 spec.txs = commits(&txs, 1);
+            }
+            if n == b_len {
+                spec.proposals.extend(late_ids(&txs, 1));
             }
             let parent = b.last().map(|x: &BlockView| x.hash()).unwrap_or_else(|| genesis.clone());
             let blk = self.forge.build_on(&parent, &spec)?;
@@ -563,14 +571,16 @@ impl Runner {
 }
 
 fn scenarios() -> Vec<(&'static str, Vec<usize>)> {
-    vec![("chain", vec![0, 1]), ("conflict", vec![2, 3]), ("header-dep", vec![4, 0]), ("cell-dep", vec![5, 6]), ("dep-conflict", vec![5, 6, 7])]
+    vec![("chain", vec![0, 1]), ("conflict", vec![2, 3]), ("header-dep", vec![4, 0]), ("cell-dep", vec![5, 6]), ("dep-conflict", vec![5, 6, 7]), ("late-proposal", vec![0])]
 }
 
 fn cases(tier: Tier) -> Vec<Case> {
     let positions: Vec<u8> = if tier.is_thorough() { vec![NEVER, 0, 1, 2, 3, 4, 5, 6] } else { vec![NEVER, 0, 1, 5] };
     let mut out = vec![];
     for (name, members) in scenarios() {
-        let role_opts: Vec<(u8, u8)> = (0..3u8).flat_map(|x| (0..3u8).map(move |y| (x, y))).collect();
+        // the late-proposal scenario adds: 3 = proposed in block 1 and in the branch's last block, 4 = in the last block only
+        let rmax = if name == "late-proposal" { 5u8 } else { 3u8 };
+        let role_opts: Vec<(u8, u8)> = (0..rmax).flat_map(|x| (0..rmax).map(move |y| (x, y))).collect();
         // all role assignments of the members
         let mut role_sets: Vec<Vec<(usize, u8, u8)>> = vec![vec![]];
         for m in &members {
@@ -623,7 +633,7 @@ pub fn meta(tier: Tier) -> Meta {
     Meta {
         id: "C12",
         level: "model_checking",
-        rule: "history = (scenario, role assignment, submission positions, block assembler on/off) run on a real node with the production tx-pool service; blocks a1 a2 a3 | b1 b2 b3 b4 (reorg, 3 detached / 4 attached) | a4 a5 (reorg back, 4 detached / 5 attached, block-1 proposals leave the window) forged freshly per history; scenarios: parent/child chain, two conflicting spends, a header-dep on a1 (+ bystander), a cell-dep user and the dep cell's spender, the same with a second (block-only) spender of the dep cell; roles per tx and branch: nothing / proposed in block 1 / proposed and committed in block 3; after EVERY submission and block (once the pool reports the new tip) the pool's internal dump is judged against a plain replay of the main chain: no pooled tx committed on it, every input and cell dep live on it or created by a pooled tx, every header dep on it, on a reorg every tx committed only on the abandoned branch that is valid on the new chain (inputs available and not spent by another pooled tx, deps, header deps) is pooled again, and with the assembler on each entry's stage equals proposed/gap/pending as computed from the new chain's proposal window. race family: a submission is started and stopped at a gate (after pre-check / before submit_entry); meanwhile blocks arrive (the submitted tx is committed, its conflict is committed, its dep cell is spent, its header dep is detached, its parent is detached or replaced, its proposal is detached) and the pool processes the tip change; the submission continues; same oracle. non-trivial = a re-added detached tx or an entry outside the pending stage.",
+        rule: "history = (scenario, role assignment, submission positions, block assembler on/off) run on a real node with the production tx-pool service; blocks a1 a2 a3 | b1 b2 b3 b4 (reorg, 3 detached / 4 attached) | a4 a5 (reorg back, 4 detached / 5 attached, block-1 proposals leave the window) forged freshly per history; scenarios: parent/child chain, two conflicting spends, a header-dep on a1 (+ bystander), a cell-dep user and the dep cell's spender, the same with a second (block-only) spender of the dep cell, a single tx whose id is (also / only) proposed in the last block of a branch; roles per tx and branch: nothing / proposed in block 1 / proposed and committed in block 3; after EVERY submission and block (once the pool reports the new tip) the pool's internal dump is judged against a plain replay of the main chain: no pooled tx committed on it, every input and cell dep live on it or created by a pooled tx, every header dep on it, on a reorg every tx committed only on the abandoned branch that is valid on the new chain (inputs available and not spent by another pooled tx, deps, header deps) is pooled again, and with the assembler on each entry's stage equals proposed/gap/pending as computed from the new chain's proposal window. race family: a submission is started and stopped at a gate (after pre-check / before submit_entry); meanwhile blocks arrive (the submitted tx is committed, its conflict is committed, its dep cell is spent, its header dep is detached, its parent is detached or replaced, its proposal is detached) and the pool processes the tip change; the submission continues; same oracle. non-trivial = a re-added detached tx or an entry outside the pending stage.",
         assumptions: &["expiry and size-limit eviction are outside this alphabet (C11 covers their bookkeeping)", "interleavings of a tip change with a concurrent submission are enumerated at the two gates between the steps of a submission (race family); other thread interleavings inside the pool service are not", "RBF is off in this check (a conflicting submission is refused)"],
         bounds: json!({"first_lead_of_A": "1 and 3 blocks (2 and 4 in the header-dep scenario); history = first + (first+1) + 2 blocks", "positions": if tier.is_thorough() { json!(["never", "start", "after a1", "after a2", "end of first A phase", "just before B overtakes", "after B overtook", "end"]) } else { json!(["never", "start", "after a1", "after B overtook"]) }, "roles_per_tx": 9}),
     }
